@@ -66,3 +66,41 @@ func (b *RecordEventTimeBuffer) Emit(watermark time.Time, produce func(record Re
 func (b *RecordEventTimeBuffer) Empty() bool {
 	return b.tree.Len() == 0
 }
+
+// EmitInEventTimeOrder emits the records of both buffers up to the watermark, ordered by event time across
+// the two buffers (left first for equal event times). A nil buffer is skipped.
+// Emitting one buffer after the other would let a record be processed before a record of the other buffer
+// with an earlier event time, i.e. a retraction could end up with an earlier event time than the record it retracts.
+func EmitInEventTimeOrder(left, right *RecordEventTimeBuffer, watermark time.Time, produceLeft, produceRight func(record Record) error) error {
+	for {
+		var leftItem, rightItem *recordEventTimeBufferItem
+		if left != nil {
+			if min := left.tree.Min(); min != nil && !min.(*recordEventTimeBufferItem).EventTime.After(watermark) {
+				leftItem = min.(*recordEventTimeBufferItem)
+			}
+		}
+		if right != nil {
+			if min := right.tree.Min(); min != nil && !min.(*recordEventTimeBufferItem).EventTime.After(watermark) {
+				rightItem = min.(*recordEventTimeBufferItem)
+			}
+		}
+		if leftItem == nil && rightItem == nil {
+			return nil
+		}
+		if leftItem != nil && (rightItem == nil || !rightItem.EventTime.Before(leftItem.EventTime)) {
+			left.tree.DeleteMin()
+			for _, record := range leftItem.Records {
+				if err := produceLeft(record); err != nil {
+					return err
+				}
+			}
+		} else {
+			right.tree.DeleteMin()
+			for _, record := range rightItem.Records {
+				if err := produceRight(record); err != nil {
+					return err
+				}
+			}
+		}
+	}
+}
